@@ -72,7 +72,9 @@ func c02Check(m *eligModel, now time.Time, code int, by, body string, ctx string
 			return false
 		}
 		o.Obs("served_ok", 1)
-	case code == 503 && strings.Contains(body, "No healthy backend"):
+	case code == 503 && by == "":
+		// Helios's own 503 (no backend stamped the answer; nothing else in these configurations refuses requests):
+		// "no healthy backend", whatever the wording
 		if nElig > 0 {
 			o.Viol("C02|503-with-healthy-backend|"+sig, fmt.Sprintf("%s: answered 'no healthy backend' although %d backend(s) are outside any unhealthy window", ctx, nElig), nil)
 			return false
